@@ -120,6 +120,7 @@ int main(int argc, char **argv) {
     guard_init();
 #endif
     if (mc_replay) return do_replay();
-    for (int ph = 0; ph < CP_N; ph++) { CURPH = ph; char nm[72]; snprintf(nm, sizeof nm, "%.48s (N=%d)", corpus_name(ph), corpus_N(ph)); mc_parallel(nm, corpus_shards(ph), phase_shard, NULL); }
+    for (int ph = 0; ph < CP_N; ph++) { if (ph == CP_SCALARS && !mc_thorough) continue;   /* 1.1M code points x every entry point: thorough tier only (C03 sweeps them every time) */
+        CURPH = ph; char nm[72]; snprintf(nm, sizeof nm, "%.48s (N=%d)", corpus_name(ph), corpus_N(ph)); mc_parallel(nm, corpus_shards(ph), phase_shard, NULL); }
     return mc_finish();
 }
